@@ -170,6 +170,7 @@ def c17(res):
     for f in fam(t, ["lines_q", "byte_q"], ["lines_t", "byte_t", "ext_t"]):
         replay_step(res, f, kinds=HEADS, modes="entries,caplaw")
     feed_traces(res, fam(t, 250000, 3000000), kinds="0,1,2")
+    session_traces(res, fam(t, 6000, 100000))
 
 
 def c19(res):
@@ -349,6 +350,99 @@ def feed_traces(res, events, kinds="0,1,2,3", checks=None):
     shutil.rmtree(wd, ignore_errors=True)
 
 
+def scan_cfg(mode, N="0", alpha="{}", lens="{}", pbytes="{}", qbytes="{}", fillers="{}", backends='{"swar8", "swar4"}'):
+    return ("SPECIFICATION Spec\nCONSTANTS\n  Mode = \"%s\"\n  Alpha = %s\n  N = %s\n  Lens = %s\n  PBytes = %s\n  QBytes = %s\n"
+            "  Fillers = %s\n  MCBackends = %s\nINVARIANT Exact Sound\nCHECK_DEADLOCK FALSE\n" % (mode, alpha, N, lens, pbytes, qbytes, fillers, backends))
+
+
+ALLB = '{"swar8", "swar4", "sse42", "avx2", "neon"}'
+
+
+def scan_traces(res, thorough=False, variant=None, label="scan"):
+    wd = os.path.join(WORK, "run", "%s-%s" % (res.prop, res.tier), label)
+    shutil.rmtree(wd, ignore_errors=True)
+    os.makedirs(wd)
+    out = os.path.join(wd, "scan")
+    args = ["scan", "--out", out, "--shards", str(NCPU), "--seed", str(res.seed)] + (["--thorough"] if thorough else [])
+    r = run_driver(args, variant=variant, timeout=3000)
+    if r.returncode != 0:
+        res.violation("a scanner crashed while being driven directly (rc=%d): %s" % (r.returncode, r.stderr[-300:]),
+                      {"kind": "scan-crash", "key": "scan-crash"})
+        return
+    info = json.loads(r.stdout.strip().splitlines()[-1])
+    files = [out + ".%d" % i for i in range(NCPU)]
+    results = validate_traces(res, label, "TraceScan", TRACE_CFG, files, timeout=3000)
+    res.traces += info["events"]
+    res.evaluations += info["calls"]
+    res.nontrivial += info["events"]
+    res.extra.setdefault("scanner_backends_driven", {})[label] = {"backends": info["backends"], "provider": info["provider"], "calls": info["calls"]}
+    names = {0: "selected provider", 1: "swar", 2: "sse4.2", 3: "avx2"}
+    for tf, ok, idx, n, inv in results:
+        if ok:
+            continue
+        ev = json.loads(open(tf).read().splitlines()[idx - 1])
+        msg = ("scanner %s, class %s: wrong stop offset for a buffer of length %d with byte position %d (fill 0x%02x, align %s): runs %s"
+               % (names.get(ev["backend"]), ["target", "header value", "header name"][ev["cls"]], ev["n"], ev["p"], ev["fill"], ev["align"], ev["runs"]))
+        res.violation(msg, {"kind": "scan", "event": ev, "variant": variant, "key": "scan:%d:%d:%d:%d" % (ev["backend"], ev["cls"], ev["n"], ev["p"])})
+    if len(res.samples) < 8:
+        res.samples.append({"scan_events": open(files[0]).read().splitlines()[:2]})
+    shutil.rmtree(wd, ignore_errors=True)
+
+
+def c12(res):
+    t = res.tier
+    mc_step(res, "swar-exhaustive", "MCScan", scan_cfg("grow", N=fam(t, "7", "9"), alpha=fam(t, "{9, 32, 33, 127, 128}", "{9, 32, 33, 127, 128, 255}") if t == "quick" else "{9, 32, 33, 127, 128}"),
+            workers=14, timeout=2400)
+    mc_step(res, "lanes-all-backends", "MCScan",
+            scan_cfg("struct", lens=fam(t, "{0, 1, 7, 8, 9, 15, 16, 17, 31, 32, 33, 47, 48, 49, 64, 65, 100}", "0..100"),
+                     pbytes=fam(t, "{0, 9, 32, 33, 58, 96, 126, 127, 128, 255}", "{0, 9, 10, 13, 31, 32, 33, 34, 58, 64, 96, 126, 127, 128, 255}"),
+                     qbytes=fam(t, "{}", "{0, 127}"), fillers="{97, 9}", backends=ALLB), workers=14, timeout=3000)
+    scan_traces(res, thorough=(t == "thorough"))
+    if t == "thorough":
+        scan_traces(res, thorough=False, variant={"rustflags": "-C target-feature=+sse4.2", "subdir": "sse42ct"}, label="scan-sse42ct")
+        scan_traces(res, thorough=False, variant={"rustflags": "-C target-feature=+avx2", "subdir": "avx2ct"}, label="scan-avx2ct")
+
+
+def session_traces(res, sessions):
+    wd = os.path.join(WORK, "run", "%s-%s" % (res.prop, res.tier), "sess")
+    shutil.rmtree(wd, ignore_errors=True)
+    os.makedirs(wd)
+    out = os.path.join(wd, "sess")
+    r = run_driver(["session", "--out", out, "--sessions", str(sessions), "--shards", str(NCPU), "--seed", str(res.seed)])
+    if r.returncode != 0:
+        res.violation("the code under test crashed during a call history on a re-used value (rc=%d)" % r.returncode,
+                      {"kind": "session-crash", "key": "session-crash", "stderr": r.stderr[-400:]})
+        return
+    info = json.loads(r.stdout.strip().splitlines()[-1])
+    files = [out + ".%d" % i for i in range(NCPU)]
+    results = validate_traces(res, "session", "TraceSession", TRACE_CFG, files, timeout=3000)
+    res.traces += info["sessions"]
+    res.evaluations += info["calls"]
+    res.nontrivial += info["sessions"]
+    for tf, ok, idx, n, inv in results:
+        if ok:
+            continue
+        sl, rel = trace_slice(tf, idx, start_ev=("session",))
+        ev = json.loads(sl[rel - 1]) if 0 < rel <= len(sl) else {}
+        msg = ("call %d of a history on one re-used value does not behave like the same call on a fresh value of equal capacity "
+               "(recorded: st=%s n=%s err=%s headers.len after=%s whole=%s; buffer %r)"
+               % (rel - 1, ev.get("st"), ev.get("n"), ev.get("err"), ev.get("exp"), ev.get("whole"), bytes(ev.get("buf", []))[:80]))
+        res.violation(msg, {"kind": "session", "events": sl[:rel], "key": "session:" + json.dumps(sl[:rel])[:300]})
+    if len(res.samples) < 8:
+        res.samples.append({"session_trace_head": open(files[0]).read().splitlines()[:3]})
+    shutil.rmtree(wd, ignore_errors=True)
+
+
+def c18(res):
+    t = res.tier
+    for k in ("req", "resp"):
+        mc_step(res, "histories-" + k, "MCSession",
+                "SPECIFICATION Spec\nCONSTANTS\n  Depth = %s\n  PoolKind = \"%s\"\nINVARIANT HistoryIndependent ExposedLaw\nCHECK_DEADLOCK FALSE\n" % (fam(t, "3", "4"), k),
+                workers=8)
+    mc_head(res, "complete-determined", invs=["InvCompleteDetermined"], kinds='{"req", "resp"}', L="1", caps="{0, 1, 2, 100000}")
+    session_traces(res, fam(t, 12000, 300000))
+
+
 def c20(res):
     t = res.tier
     mc_step(res, "cursor-contract", "MCCursor", "SPECIFICATION MCSpecC\nCONSTANT MaxLen = %s\nINVARIANT IndInv\nPROPERTY Forward\nCHECK_DEADLOCK FALSE\n" % fam(t, "6", "9"), workers=4)
@@ -357,7 +451,7 @@ def c20(res):
 
 
 PLANS = {"C01": c01, "C02": c02, "C03": c03, "C04": c04, "C05": c05, "C06": c06, "C07": c07, "C08": c08, "C09": c09,
-         "C10": c10, "C11": c11, "C13": c13, "C14": c14, "C15": c15, "C16": c16, "C17": c17, "C19": c19, "C20": c20}
+         "C10": c10, "C11": c11, "C13": c13, "C14": c14, "C15": c15, "C16": c16, "C17": c17, "C12": c12, "C18": c18, "C19": c19, "C20": c20}
 LEVEL = {p: "model_checking" for p in PLANS}
 
 
